@@ -195,6 +195,26 @@ static bool ev_trans(Ctx& c, bool next, int64_t t, time_zone::civil_transition* 
   return ok && !ub;
 }
 
+// next/prev_transition on time_point<milliseconds>: at + 0.5 s (prev) and at - 0.5 s (next)
+static void ev_trans_sub(Ctx& c, int64_t at) {
+  if (at > 9000000000000000LL || at < -9000000000000000LL) return;
+  typedef time_point<std::chrono::milliseconds> TPM;
+  for (int next = 0; next <= 1; ++next) {
+    int ub;
+    bool ok = false;
+    time_zone::civil_transition tr;
+    TPM q(std::chrono::milliseconds(at * 1000 + (next ? -500 : 500)));
+    VT_GUARD(ub, ok = next ? c.tz.next_transition(q, &tr) : c.tz.prev_transition(q, &tr));
+    // equivalent whole-second query: prev: strictly before at + 0.5 s  <=>  strictly before at + 1;  next: strictly after at - 1
+    std::string s = std::string("{\"e\":\"") + (next ? "Next" : "Prev") + "\",\"z\":" + std::to_string(c.z) + ",\"t\":" + W(next ? at - 1 : at + 1) +
+                    ",\"ok\":" + ((ok && !ub) ? "1" : "0");
+    if (ok && !ub) s += ",\"from\":" + F(tr.from) + ",\"to\":" + F(tr.to);
+    else s += ",\"from\":[[1],1,1,0,0,0],\"to\":[[1],1,1,0,0,0]";
+    s += ",\"ub\":" + std::to_string(ub) + ",\"sub\":1}";
+    emit(c, s);
+  }
+}
+
 struct Tr { int64_t at; civil_second from, to; };
 
 // the library's own forward chain of transitions (inputs for the panels only)
@@ -366,6 +386,10 @@ static void run_zone(Ctx& c, vt::Rng& r, bool thorough, const std::vector<int64_
     for (int64_t t : spec_tr)
       for (int d = -1; d <= 1; ++d) { ev_trans(c, true, sat_add(t, d)); ev_trans(c, false, sat_add(t, d)); }
     ev_trans(c, true, kMin); ev_trans(c, true, kMax); ev_trans(c, false, kMin); ev_trans(c, false, kMax);
+    // the same queries through the public templates for finer time points: an instant half a second after a change
+    // has that change strictly before it, one half a second before it has the change strictly after it (before and
+    // after the epoch alike).  Logged as the equivalent whole-second query, marked "sub".
+    for (size_t i : pick) ev_trans_sub(c, ch[i].at);
     for (int i = 0; i < (fam_small ? 2 : 10); ++i) { int64_t t = (int64_t)r.next(); ev_trans(c, true, t); ev_trans(c, false, t); }
     // full chains, following the library's own answers: forward from min(), backward from max()
     if (full_chains && !fam_small) {
